@@ -34,10 +34,13 @@ REQUIRED_CLASSES = [
 ]
 
 
+STRATA = ["add", "remove", "aspirate", "dispense", "transfer", "distribute", "evo_aspirate", "evo_dispense"]
+
+
 @st.composite
-def _case(draw):
+def _case(draw, focus):
     q = draw(st.sampled_from([0.01, 0.25, None]))
-    scenario = draw(st.sampled_from(["tight", "tight", "supply", "supply", "roomy"]))
+    scenario = draw(st.sampled_from(["tight", "tight", "supply", "supply", "roomy"] if focus != "distribute" else ["supply", "supply", "tight"]))
     n = 2 if scenario == "supply" else draw(st.integers(1, 2))
     labs = []
     for i in range(n):
@@ -48,12 +51,22 @@ def _case(draw):
             kind, regime, filled = "trough", "roomy", True  # a well-filled supply trough next to tight labware
         labs.append(draw(lab_spec(["T1", "P2"][i], kind=kind, max_rows=8, max_cols=6, regime=regime, grid=bool(q), q=q or 0.01, allow_names=False, pos=(10 + i, 1 + i), filled=filled)))
     vs = vs_mixed(q)
-    ops = st.one_of(op_direct(vs), op_direct(vs), op_transfer(vs), op_distribute(vs), op_evo(vs))
-    return {"labs": labs, "device": draw(st.sampled_from(["evo", "evo", "fluent"])), "q": q, "ops": draw(st.lists(ops, min_size=1, max_size=16))}
+    anyop = st.one_of(op_direct(vs), op_direct(vs), op_transfer(vs), op_distribute(vs), op_evo(vs))
+    if focus in ("add", "remove", "aspirate", "dispense"):
+        fop = op_direct(vs, kinds=(focus,))
+    elif focus == "transfer":
+        fop = op_transfer(vs)
+    elif focus == "distribute":
+        fop = op_distribute(vs)
+    else:
+        fop = op_evo(vs).map(lambda o: dict(o, op=focus))
+    ops = st.one_of(fop, fop, anyop)
+    device = "evo" if focus.startswith("evo_") else draw(st.sampled_from(["evo", "fluent"]))
+    return {"labs": labs, "device": device, "q": q, "ops": draw(st.lists(ops, min_size=1, max_size=12))}
 
 
-def strategy(tier):
-    return _case()
+def strategy(tier, stratum):
+    return _case(stratum)
 
 
 def _same(a, b):
